@@ -186,14 +186,20 @@ func c13URL(c c13Case, h http.Handler, dials *c13Dials, b *shimBackend) c13Resul
 	}
 	a := shimStart(h, nil, "", req).wait(20 * time.Second)
 	res.Status = a.Status
-	res.Dials = dials.take()
+	rawDials := dials.take()
+	for _, d := range rawDials {
+		if d == "tcp "+b.addr {
+			d = "tcp <configured backend>"
+		}
+		res.Dials = append(res.Dials, d)
+	}
 	show := shimTrunc(fmt.Sprintf("%q", body), 200)
 	if a.Panic != "" {
 		res.Violations = append(res.Violations, fmt.Sprintf("C13:panic:%s|open with body %s panicked: %s", shimSlug(a.Panic), show, a.Panic))
 	} else if !a.Answered {
 		res.Note = "open not answered within 20s"
 	}
-	for _, d := range res.Dials {
+	for _, d := range rawDials {
 		if d != "tcp "+b.addr {
 			res.Violations = append(res.Violations, fmt.Sprintf("C13:dial-foreign:%s|open with body %s (rewriteHost=%v, client Host %q) made the agent dial %q; the configured backend is %q", c.Class, show, c.Rewrite, c.Host, d, b.addr))
 		}
